@@ -3,7 +3,13 @@ import Driver.C11
 
 /-! Driver for C19: the sequential oracle for concurrent quadtree queries.
     `conc <bound> <nb> build-ops… <M> query-ops… <G> <R> <buf> =>
-       res_1 ; … ; res_M ; F <same> <treeSame> <buildSame> <oracleTreeSame> <lateSame> <boundSame>`
+       res_1 ; … ; res_M ; F <same> <treeSame> <buildSame> <oracleTreeSame> <lateSame> <boundSame>
+                             <keptStable> <keptOracle> <listSame>`
+    buf          0: every query gets a nil buffer; 1: every goroutine follows `buf = q.Query(buf, …)`
+                 (its previous result slice is the buffer of its next query); ≥ 2: mixed, drawn per
+                 call from a per-goroutine generator seeded with this number: nil / the goroutine's
+                 PREVIOUS result slice resliced to [:0] / a fresh dirty buffer; in round 0 every
+                 goroutine issues the whole-bound InBound queries with a nil buffer
     res_i        answer of query i run ALONE on a second tree built by the same history (the tree the
                  goroutines use is not queried before they start)
     same         every concurrent answer (through the *Matching methods and through the Find /
@@ -15,6 +21,13 @@ import Driver.C11
     oracleTreeSame  the sequential pass left the oracle tree unchanged
     lateSame     every query run alone on the shared tree AFTER the concurrent phase still answers res_i
     boundSame    Bound() read concurrently always returned the construction bound
+    keptStable   per-goroutine result buffers: every goroutine keeps ALL result slices it received
+                 (except those it handed back itself as the buffer of a later query); read again
+                 after all goroutines have finished, each still reads what it read when returned
+    keptOracle   … and equals res_i (implied by same ∧ keptStable; checked on its own)
+    listSame     after the concurrent phase the whole-tree listings of the shared tree (InBound over
+                 the tree bound and beyond, KNearest with k ≥ number of stored pointers, nil buffers)
+                 equal those of the identically built oracle tree
     A data race reported by the race detector kills the harness process; `check` turns that into
     `propfail data-race` (no flag here). -/
 namespace Driver.C19
@@ -29,10 +42,11 @@ def handleConc (inp out : Toks) : String :=
     let (m, i) ← nat i
     let (qs, i) ← many opP m i
     let (g, i) ← nat i
-    let (r, _) ← nat i
-    pure ((⟨a, b⟩ : Bound F), build, qs, g, r)) with
+    let (r, i) ← nat i
+    let (bm, _) ← nat i
+    pure ((⟨a, b⟩ : Bound F), build, qs, g, r, bm)) with
   | none => "bad input"
-  | some (qb, build, qs, g, _r) =>
+  | some (qb, build, qs, g, _r, bm) =>
     if out == ["panic"] then "propfail panic" else
     let parts := splitSemi out
     if parts.length != qs.length + 1 then "bad output-arity" else
@@ -47,14 +61,18 @@ def handleConc (inp out : Toks) : String :=
       else s!"diff sequential answers differ from the model: {" ; ".intercalate mres}"
     fin <|
     match flags with
-    | ["F", same, treeSame, buildSame, oracleTreeSame, lateSame, boundSame] =>
+    | ["F", same, treeSame, buildSame, oracleTreeSame, lateSame, boundSame, keptStable, keptOracle, listSame] =>
       if buildSame != "1" then "propfail same-history-different-tree" else
+      if keptStable != "1" then "propfail result-changed-after-return" else
       if same != "1" then "propfail concurrent-answer-differs" else
+      if keptOracle != "1" then "propfail kept-result-differs-from-oracle" else
       if treeSame != "1" then "propfail tree-changed" else
       if oracleTreeSame != "1" then "propfail tree-changed-by-sequential-query" else
       if boundSame != "1" then "propfail bound-changed" else
+      if listSame != "1" then "propfail listing-differs-after" else
       if lateSame != "1" then "propfail answer-differs-after-concurrent-phase" else
-      if g ≥ 2 then (if build.any (fun | .remId _ _ | .remPt _ => true | _ => false) then "ok conc-after-removals" else "ok conc") else "ok triv-single"
+      let bufTag := if bm == 0 then "buf-nil" else if bm == 1 then "buf-reused" else "buf-mixed"
+      if g ≥ 2 then (if build.any (fun | .remId _ _ | .remPt _ => true | _ => false) then s!"ok conc-after-removals {bufTag}" else s!"ok conc {bufTag}") else "ok triv-single"
     | _ => "bad flags"
 
 def handle (ts : Toks) : String :=
